@@ -509,6 +509,26 @@ async fn one_case(c: &Value, idx: usize) -> (Vec<(String, Value)>, Value) {
 				// (field order / absent fields differ between the two sources)
 				format!("{}:{}:{}:{}:{}", v["t"].as_str().unwrap_or("?"), v["k"], v.get("code").unwrap_or(&Value::Null), v.get("n").unwrap_or(&Value::Null), v.get("v").unwrap_or(&Value::Null))
 			};
+			// A closing notification is bounded from above only ("at most once, only for an accepted subscription, after the
+			// response that accepted it"): one the spec has and the peer did not get is left out of the comparison (one the peer
+			// got and the spec has not is still a difference).
+			let want: Vec<Value> = {
+				let mut kept = vec![];
+				let mut gi = 0usize;
+				for wv in want.iter() {
+					let same = got.get(gi).map(|gv| norm(gv) == norm(wv)).unwrap_or(false);
+					if same {
+						gi += 1;
+						kept.push(wv.clone());
+					} else if wv["t"] == "close" {
+						continue;
+					} else {
+						kept.push(wv.clone());
+						gi += 1;
+					}
+				}
+				kept
+			};
 			let (g, x): (Vec<String>, Vec<String>) = (got.iter().map(norm).collect(), want.iter().map(norm).collect());
 			if g != x {
 				// name the first difference by kind
